@@ -208,7 +208,7 @@ def concurrent_session(kind, msgs, pause_plan, stagger, after_reconnect=False, b
         await asyncio.wait(tasks, timeout=5000.0)
         await asyncio.sleep(1.0)
         sim.sent_from = base
-        await sim.call("close")
+        await sim.close_guarded()
     return simgw.run_session(kind, scenario, bystander=bystander)
 
 
@@ -331,7 +331,7 @@ def run_concurrent(spec, acc):
                 ta.cancel()
                 await asyncio.wait([tb], timeout=2000.0)
                 await asyncio.sleep(1.0)
-                await sim.call("close")
+                await sim.close_guarded()
             sim, stats = simgw.run_session(kind, scenario_c)
             acc.count("sessions")
             acc.count("cancelled_sender_sessions")
@@ -430,7 +430,7 @@ def run_unencodable(spec, acc):
             await asyncio.sleep(15.0)
             sim.after = (len(conn.written), list(sim.status), len(sim.attempts), sim.client.state.name)
             conn.feed(b"")      # no-op
-            await sim.call("close")
+            await sim.close_guarded()
         sim, stats = simgw.run_session(kind, scenario)
         acc.count("sessions")
         acc.count("unencodable_sends_checked")
@@ -456,7 +456,7 @@ def run_unencodable(spec, acc):
             await sim.call("send", m)
             await asyncio.sleep(15.0)
             sim.after = (sum(len(c.written) for c in sim.conns), list(sim.status), len(sim.attempts), sim.client.state.name)
-            await sim.call("close")
+            await sim.close_guarded()
         sim, stats = simgw.run_session(kind, scenario_nc)
         acc.count("sessions")
         acc.count("unencodable_sends_on_unconnected_client")
@@ -494,7 +494,7 @@ def run_write_failure(spec, acc):
                 tasks = [sim.spawn("send", mm) for mm in [m] + others]
                 await asyncio.wait(tasks, timeout=2000.0)
                 await asyncio.sleep(30.0)
-                await sim.call("close")
+                await sim.close_guarded()
             sim, stats = simgw.run_session(kind, scenario2)
             acc.count("sessions")
             acc.count("write_failures_checked")
@@ -532,7 +532,7 @@ def run_write_failure(spec, acc):
                     sim.conns[-1].drain_fails = 0
                     await sim.call("send", m)
                 await asyncio.sleep(40.0)
-                await sim.call("close")
+                await sim.close_guarded()
             sim, stats = simgw.run_session(kind, scenario3)
             acc.count("sessions")
             acc.count("write_failures_checked")
@@ -564,7 +564,7 @@ def run_write_failure(spec, acc):
                 await asyncio.wait([t_], timeout=60.0)
                 sim.send_returned = t_.done()
                 await asyncio.sleep(30.0)
-                await sim.call("close")
+                await sim.close_guarded()
             sim, stats = simgw.run_session(kind, scenario, status_cb=scb_)
             if not stats["error"] and not getattr(sim, "send_returned", True):
                 acc.violation("send-never-returns-after-write-failure", f"{kind}: send() whose write failed at packet {i} had not returned 60 virtual s later (status callback: {scb_})",
@@ -639,7 +639,7 @@ def run_reconnect_during_send(spec, acc):
                     await asyncio.sleep(0)
                 c0._resume_writing()                   # the old link becomes writable again: A wakes up in drain()
                 await asyncio.sleep(30.0)
-                await sim.call("close")
+                await sim.close_guarded()
             sim, stats = simgw.run_session(kind, scenario)
             acc.count("sessions")
             acc.count("reconnect_during_send_sessions")
@@ -728,7 +728,7 @@ def run_many(spec, acc):
                 # wait for the senders themselves (bounded in virtual time), not for a fixed period
                 await asyncio.wait(tasks, timeout=20000.0)
                 sim.all_sends_returned = all(t.done() for t in tasks)
-                await sim.call("close")
+                await sim.close_guarded()
             sim, stats = simgw.run_session(kind, scenario, max_steps=900_000)
             if sim is not None and not stats["error"] and not getattr(sim, "all_sends_returned", False):
                 acc.inconclusive_because("many-sends session: senders still pending after 20000 virtual seconds")
